@@ -6,18 +6,27 @@
     ResponseWriter when the inner handler makes the calls [ops];  [bare sniff h0 ops] = what
     the same calls leave there without the gzip handler ("what the upstream produced");
     [written ops] = the concatenation of the Write calls.  All theorems hold for every call
-    sequence (any number and size of chunks, with or without WriteHeader, header changes at
-    any point), every content-type expression [ctm], every sniffer [sniff], every request. *)
+    sequence (any number and size of chunks, with or without WriteHeader, informational 1xx
+    WriteHeaders anywhere, header changes and clear(Header()) at any point), every
+    content-type expression [ctm], every sniffer [sniff], every request.  Status, headers and
+    body are those of the FINAL response; informational responses are in [o_info]. *)
 From Coq Require Import String List NArith.
 From Fabio Require Import Lib.Bytes Model.Gzip Proofs.Gzip.
 Import ListNotations.
 Local Open Scope N_scope.
 
-(* The status code is preserved in all cases. *)
+(* The (final) status code is preserved in all cases. *)
 Theorem C17_status_preserved : forall sniff ctm h0 accept ae ops,
   o_code (handler sniff ctm h0 accept ae ops) = o_code (bare sniff h0 ops).
 Proof. exact status_preserved. Qed.
 Print Assumptions C17_status_preserved.
+
+(* Informational responses are passed on: same codes in the same order, each with the
+   upstream's headers at that moment (Vary gained at most one Accept-Encoding). *)
+Theorem C17_informational_preserved : forall sniff ctm h0 accept ae ops,
+  info_rel (o_info (handler sniff ctm h0 accept ae ops)) (o_info (bare sniff h0 ops)).
+Proof. exact informational_preserved. Qed.
+Print Assumptions C17_informational_preserved.
 
 (* The wrapper never uses its writer before deciding (no nil-writer panic). *)
 Theorem C17_never_panics : forall sniff ctm h0 accept ae ops,
@@ -87,7 +96,8 @@ Proof. exact identity_otherwise. Qed.
 Print Assumptions C17_identity_otherwise.
 
 (* The writer is decided once: after the decision no call changes the selection, the status
-   or the header snapshot; and the first WriteHeader / Write decides. *)
+   or the header snapshot.  The first NON-informational WriteHeader or the first Write decides;
+   an informational WriteHeader decides nothing, finalises nothing and leaves the headers alone. *)
 Theorem C17_decision_once : forall sniff ctm ops g s,
   g_sel g = Some s -> r_wrote (g_rec g) = true ->
   g_sel (grw_run sniff ctm ops g) = Some s
@@ -97,11 +107,38 @@ Proof. exact decision_once. Qed.
 Print Assumptions C17_decision_once.
 
 Theorem C17_first_call_decides : forall sniff ctm o g,
-  (match o with WriteHeader _ | Write _ => True | _ => False end) ->
+  (match o with WriteHeader c => is_1xx c = false | Write _ => True | _ => False end) ->
   g_sel (grw_step sniff ctm o g) <> None
   /\ (g_sel g = None -> r_wrote (g_rec g) = false -> r_wrote (g_rec (grw_step sniff ctm o g)) = true).
 Proof. exact first_call_decides. Qed.
 Print Assumptions C17_first_call_decides.
+
+Theorem C17_informational_does_not_decide : forall sniff ctm c g, is_1xx c = true ->
+  g_sel (grw_step sniff ctm (WriteHeader c) g) = g_sel g
+  /\ g_fed (grw_step sniff ctm (WriteHeader c) g) = g_fed g
+  /\ r_wrote (g_rec (grw_step sniff ctm (WriteHeader c) g)) = r_wrote (g_rec g)
+  /\ r_hdr (g_rec (grw_step sniff ctm (WriteHeader c) g)) = r_hdr (g_rec g).
+Proof. exact informational_does_not_decide. Qed.
+Print Assumptions C17_informational_does_not_decide.
+
+(* Before commit a52f2fd every WriteHeader decided: on the calls httputil.ReverseProxy makes for
+   an upstream that sends 103 Early Hints, with an expression that matches the empty content
+   type, the final response was compressed WITHOUT Content-Encoding and WITH the upstream's
+   Content-Length (fixed finding F-C17-2); the code as it is labels it correctly. *)
+Theorem C17_informational_decides_unrepaired_refuted : forall sniff,
+  let res := handler_unrepaired sniff (fun _ => true) [] [] [bs "gzip"] early_hints_ops in
+  o_fed res = Some (bs "hello") /\ o_code res = 200
+  /\ hvals (o_hdr res) H_CE = None /\ hvals (o_hdr res) H_CL = Some [bs "5"].
+Proof. exact informational_decides_unrepaired_refuted. Qed.
+Print Assumptions C17_informational_decides_unrepaired_refuted.
+
+Theorem C17_early_hints_repaired : forall sniff,
+  let res := handler sniff (fun _ => true) [] [] [bs "gzip"] early_hints_ops in
+  o_fed res = Some (bs "hello") /\ o_code res = 200
+  /\ hvals (o_hdr res) H_CE = Some [GZIP] /\ hvals (o_hdr res) H_CL = None
+  /\ map fst (o_info res) = [103].
+Proof. exact early_hints_repaired. Qed.
+Print Assumptions C17_early_hints_repaired.
 
 (* non-vacuity: a compressed 404 with a stale Content-Length, written in two chunks *)
 Theorem C17_nonvacuous :
